@@ -14,6 +14,8 @@ def stieltjes(ctx, n, a=1):
     else:
         stieltjes_cache = ctx.stieltjes_cache = {}
     if a == 1:
+        # (also for a complex 1+0j: the value, and what is cached, is real)
+        a = ctx.one
         if n == 0:
             return +ctx.euler
         if n in stieltjes_cache:
